@@ -88,6 +88,9 @@ func c04ScriptedDownload(e *Env) {
 	reqBody := []byte("query-body")[:1+t.Choose(10)]
 	var call *Call
 	callDone := func() bool { return call != nil && call.Done() }
+	// one run in four is fault-free: the peer serves exactly what it is asked for, nothing is duplicated; only time
+	// passes. Such an exchange can complete, so it has to - with the body the peer holds.
+	clean := t.Chance(1, 4)
 	cur, etag := v1, etag1
 	switched := false
 	served := 0
@@ -116,6 +119,9 @@ func c04ScriptedDownload(e *Env) {
 		}
 		blk := 16 << sz
 		mode := t.Weighted(8, 2, 2, 1, 1)
+		if clean {
+			mode = 0
+		}
 		label := "block"
 		switch mode {
 		case 1: // replay an older block instead of the requested one
@@ -165,7 +171,18 @@ func c04ScriptedDownload(e *Env) {
 		it.NoDrop = true
 	}
 	w.DupW = t.Choose(2)
-	call = e.NewCall("download", 0, nil, 60*time.Second)
+	if clean {
+		w.DupW = 0
+	}
+	// the caller's context has a deadline of 60 s, or none at all (then every time limit is the library's own)
+	noDeadline := t.Chance(1, 3)
+	if noDeadline {
+		call = e.NewCall("download", 0, nil, 0)
+		e.Probe("download.contextWithoutDeadline")
+	} else {
+		call = e.NewCall("download", 0, nil, 60*time.Second)
+	}
+	slow, lastSlow, nowSlow := 0, false, false
 	e.Start(call, func(ctx context.Context) (*pool.Message, error) {
 		if withBody {
 			return w.API.(mux.Conn).Post(ctx, "/big", message.TextPlain, bytes.NewReader(reqBody))
@@ -186,7 +203,20 @@ func c04ScriptedDownload(e *Env) {
 			}
 			continue
 		}
+		if slow < 2 && !lastSlow { // (never two in a row: the time between two blocks stays below the 5 s transfer timeout)
+			// a slow peer / a slow link: seconds pass, with housekeeping, while an answer is on its way
+			evs = append(evs, Event{Label: "slow", W: 1, Do: func() {
+				slow++
+				nowSlow = true
+				e.Fault("time.secondsPassMidTransfer")
+				e.Logf("advance 4s then tick")
+				e.Sleep(4 * time.Second)
+				w.Tick(time.Now())
+			}})
+		}
+		nowSlow = false
 		w.Step(evs)
+		lastSlow = nowSlow
 	}
 	if call.Done() && reqTok != nil {
 		// late duplicates of blocks of the finished (or failed) exchange arrive: they must not set anything in motion
@@ -213,10 +243,22 @@ func c04ScriptedDownload(e *Env) {
 			w.Step(evs)
 		}
 	}
-	e.Sleep(70 * time.Second)
-	w.Pump()
+	for i := 0; i < 7; i++ {
+		e.Sleep(10 * time.Second)
+		w.Tick(time.Now())
+		e.Wait()
+		w.Pump()
+	}
 	if !call.Done() {
-		e.Violate("C04.R5", "transfer-hangs:scripted-download", "the download has not returned 10 s after its 60 s deadline")
+		if noDeadline && !clean {
+			e.Probe("download.noDeadlineFaultyRunAbandoned") // a caller that sets no deadline waits as long as it takes
+			return
+		}
+		if noDeadline {
+			e.Violate("C04.R5", "transfer-hangs:scripted-download:fault-free", "fault-free run: the peer has answered every request it got with the block asked for, 70 s with housekeeping ticks have passed since, and the download (context without a deadline; %d slow phases of 4 s) has neither completed nor failed", slow)
+		} else {
+			e.Violate("C04.R5", "transfer-hangs:scripted-download", "the download has not returned 10 s after its 60 s deadline")
+		}
 		return
 	}
 	// after the exchange ended the blocks of the stale duplicates must not have set a new transfer in motion whose
@@ -232,6 +274,15 @@ func c04ScriptedDownload(e *Env) {
 	resp, err := call.Result()
 	if err != nil || resp == nil || resp.Code != 0x45 {
 		e.Probe("transfer.failed")
+		if clean {
+			what := "a response that is not the peer's 2.05"
+			if err != nil {
+				what = trimErr(err)
+			} else if resp != nil {
+				what = resp.String()
+			}
+			e.Violate("C04.R5", "fault-free-transfer-failed:scripted-download", "fault-free run (every request answered with the block asked for, no duplicates, %d slow phases of 4 s, deadline: %v): the download ended with %s", slow, !noDeadline, what)
+		}
 		return
 	}
 	e.Probe("transfer.completed")
